@@ -16,6 +16,7 @@ import (
 	"reflect"
 	"regexp"
 	"slices"
+	"strings"
 	"time"
 )
 
@@ -255,7 +256,22 @@ func forType(t reflect.Type, seen map[reflect.Type]bool, ignore bool, schemas ma
 			if s.Properties == nil {
 				s.Properties = make(map[string]*Schema)
 			}
+			// encoding/json flattens an embedded struct only if its json tag does not
+			// name it: with a name it is an ordinary field, and with "-" it is omitted
+			// along with the fields it would have promoted.
+			namedEmbedded := false
 			if field.Anonymous {
+				tag := field.Tag.Get("json")
+				tagName, _, _ := strings.Cut(tag, ",")
+				if tag == "-" {
+					if skipPath == nil || !slices.Equal(field.Index[:min(len(skipPath), len(field.Index))], skipPath) {
+						skipPath = field.Index
+					}
+					continue
+				}
+				namedEmbedded = field.IsExported() && isValidTagName(tagName)
+			}
+			if field.Anonymous && !namedEmbedded {
 				override := schemas[field.Type]
 				if override != nil {
 					// Type must be object, and only properties can be set.
@@ -313,6 +329,11 @@ func forType(t reflect.Type, seen map[reflect.Type]bool, ignore bool, schemas ma
 					// checking.
 					skipPath = nil
 				}
+			}
+
+			if namedEmbedded {
+				// The fields promoted from it are not properties of this struct.
+				skipPath = field.Index
 			}
 
 			info := fieldJSONInfo(field)
